@@ -12,6 +12,21 @@ CLAIMS = {
                 "client-supplied id is compared with the recomputed hash; closed world of admission.",
         "not_decided": "cryptographic correctness of aionostr/coincurve; NIP-26 condition strings.",
     },
+    "C14": {
+        "technique": "CFG must-pass-through on guard edges (can_do truthy before every admission effect / subscription start; "
+                     "check_output truthy-or-unset before every delivery site), who-may-call, fail-closed lint of can_do",
+        "text": TXT + "Decides: save gate in both backends, query gate in subscribe, output validator on every stored, live and HTTP "
+                "delivery site, can_do decision structure and seeded actions.",
+        "not_decided": "role read-back equals last write; the configuration matrix as behaviour; operator plug-in classes.",
+    },
+    "C16": {
+        "technique": "CFG must-pass-through (validator gate), chain-integrity lint, guard-participation with comparison direction per "
+                     "validator (frozen slot table), handler table, thread-shared-set mutation discipline",
+        "text": TXT + "Decides: pipeline before any effect and cannot skip validators; each shipped validator rejects by raise on a guard "
+                "relating its event field to its configuration source in the documented direction; rejection is answered OK,false; "
+                "allow/deny sets are never emptied while validators may read them.",
+        "not_decided": "each validator's numeric bound at the limit; list contents as a function of the queries; refresh/validation interleavings beyond the no-empty-window rule.",
+    },
 }
 
 PENDING = "checker for this property is not implemented yet in this revision; nothing is claimed"
